@@ -313,6 +313,9 @@ func init() {
 			return map[string]any{"max_pairs": c12Pairs(tier), "keys": c12Keys, "values": c12Vals, "configurations": len(c12Configs())}
 		},
 		RequiredOutcomes: []string{"negotiated", "rejected", "cancel"},
+		// schedule part: two users connecting concurrently to a server with configured global parameters
+		// (scenario S-C of verif/engine/sched/c15.go), all schedules up to the preemption bound, race monitor on
+		After: explore.MergeSched("C12", true),
 	})
 }
 
